@@ -486,6 +486,11 @@ def signature(law, row, S):
         if lost and all(i not in c["b"] and below_gone(i) for i in lost) and o["m2"] == sorted(set(c["m"]) - gone - set(lost)):
             return "pending-remain:unselected-added-entry-below-committed-missing-directory-is-unversioned"
     if law == "tree" and o.get("unreadable"):
+        # an unselected (excluded) entry keeps its basis parent although that parent is committed as a non-directory
+        def nondir(p):
+            return p in S and (p not in c["w"] or p in c["m"] or c["w"][p]["kind"] != "directory")
+        if any(i not in S and e["parent"] != ROOT and nondir(e["parent"]) for i, e in c["b"].items()):
+            return "committed-inventory-inconsistent:excluded-child-of-directory-committed-as-non-directory"
         return "committed-inventory-inconsistent:%s" % shape(row)
     return "law:%s:%s" % (law, shape(row))
 
